@@ -245,19 +245,49 @@ def build_test(rs, root, label, obs_mode, N):
         xrow[v] = joint[v]
         codes[v] = 0 if v in contvars else int(joint[v])
     X = np.tile(xrow, (N, 1))
+    # half of the tests: the N rows under test are shuffled into ONE batch with rows carrying other evidence patterns (every
+    # variable missing in some row, some rows complete, some empty) — what a row is filled with may depend on that row only
+    mixed = bool(rs.rand() < 0.5) and len(scope) > 1
+    sel = None
+    if mixed:
+        F = max(8, N // 4)
+        fill = sample(root, np.full((F, width), np.nan, dtype=np.float32))
+        if not np.isnan(fill[:, scope]).any():
+            hide = rs.rand(F, width) < rs.rand(F, 1)
+            hide[0, :] = True; hide[1, :] = False
+            for j, v in enumerate(scope):
+                hide[2 + j % (F - 2), v] = True
+            fill = fill.copy(); fill[hide] = np.nan
+            order = rs.permutation(N + F)
+            Xall = np.concatenate([X, fill], axis=0)[order]
+            sel = np.argsort(order)[:N]                      # where the rows under test went
+            Xall0 = Xall.copy()
     X0 = X.copy()
     fp0 = G.fingerprint(root)
-    Y = sample(root, X)
+    if sel is not None:
+        Yall = sample(root, Xall)
+        Y = Yall[sel] if Yall.shape == Xall.shape else Yall
+    else:
+        Y = sample(root, X)
     fp1 = G.fingerprint(root)
     t = dict(label=label, root=root, tab=tab, dom=dom, scope=scope, width=width, obs=obs, miss=miss, codes=codes,
              xrow=xrow, edges=edges, contvars=contvars, N=N, exact=[])
     # ---- exact clauses on every drawn row
     if fp1 != fp0:
         t["exact"].append("sample() changed the circuit it was called on (parameters, ids or node objects differ afterwards)")
+    t["mixed_batch"] = sel is not None
     if Y.shape != X.shape:
         t["exact"].append("output shape differs from input shape"); return t
     if not np.array_equal(X, X0, equal_nan=True):
         t["exact"].append("caller's array modified although inplace=False")
+    if sel is not None:
+        if not np.array_equal(Xall, Xall0, equal_nan=True):
+            t["exact"].append("caller's array modified although inplace=False (mixed batch)")
+        ob = ~np.isnan(Xall0)
+        if not np.array_equal(Yall[ob], Xall0[ob]):
+            t["exact"].append("an observed entry of a row of the mixed batch was changed")
+        if np.isnan(Yall[:, scope]).any():
+            t["exact"].append(f"{int(np.isnan(Yall[:, scope]).sum())} missing cells of the mixed batch left unfilled")
     keep = [j for j in range(width) if j not in miss]
     if not np.array_equal(Y[:, keep], X0[:, keep], equal_nan=True):
         j = next(j for j in keep if not np.array_equal(Y[:, j], X0[:, j], equal_nan=True))
@@ -470,7 +500,9 @@ def main(tier, seed, replay=None):
                                    evidence_row=t["xrow"].tolist(), missing=t["miss"], draws=t["N"], radius=float(eps),
                                    cells_outside_radius=[dict(cell=dict(zip(t["miss"], c)), frequency=k / t["N"]) for c, k in bad_cells[:8]],
                                    all_cells=[dict(cell=c, frequency=k / t["N"]) for c, k in zip(t["cells"], t["counts"])][:64],
-                                   bins=t["edges"], oracle=orc, seed=seed),
+                                   bins=t["edges"], oracle=orc, seed=seed,
+                                   batch=("the rows under test were shuffled into one batch with rows carrying other evidence patterns "
+                                          "(some all-missing, some complete); the oracle below redraws on a homogeneous batch") if t.get("mixed_batch") else "homogeneous"),
                               True)
     for t in good[:2] + good[-2:]:
         rep.sample(dict(test=t["label"], model=t["tab"].brief(), evidence_row=t["xrow"].tolist(), missing=t["miss"],
@@ -481,7 +513,7 @@ def main(tier, seed, replay=None):
                        "DAGs with sharing and CLT leaves, stand-alone Chow-Liu trees (2-5 variables; evidence on the root, on an inner node, on "
                        "a leaf of the tree, random, none), mixtures over a Gaussian/Uniform/Isotonic variable (8 quantile bins; also observed, "
                        "sampling the discrete rest); evidence values are drawn from the model; one evaluation = one (circuit, evidence row, "
-                       "completion cell) whose frequency among N = 2e5 draws is compared inside Coq with the sampler model's exact law; all are "
+                       "completion cell; in half of the tests the rows under test share one batch with rows of other evidence patterns) whose frequency among N = 2e5 draws is compared inside Coq with the sampler model's exact law; all are "
                        "non-trivial; distinct by circuit+row+cell hash")
     C.clean_gen(PID)
     return rep.finish("proof")
